@@ -14,4 +14,4 @@ class Check(PropertyCheck):
     assumptions = ["operands < 2^256 (the type's range)"]
 
     def families(self, rng, tier):
-        return [("num.operators", fam_num.num_cases(rng, tier))]
+        return [("num.operators", fam_num.num_cases(rng.sub("num_cases"), tier))]
